@@ -10,4 +10,9 @@ TEXT = {
         note="Trusted: the i128 model. Histories respect frame accounting (erase_cost <= spent; refund total >= 0 when finalised), which is the domain the property states.",
         technique="runtime monitoring: API history vs executable reference model, two build lanes",
     ),
+    "C32": dict(
+        level="Held on every observed call: calc_blob_gasprice, fake_exponential and calc_excess_blob_gas are called in child processes (each input announced first, watchdog per call) on boundary-directed and random inputs — every excess where the exact price crosses a power of two, the largest representable excess and its neighbours, far-out-of-range values — and compared with the EIP-4844 pseudo-code evaluated on BigUint; release (wrapping) and debug (overflow-checked) lanes.",
+        note="Trusted: num-bigint and the 15-line transcription of the EIP pseudo-code. A call that does not return for an input whose exact value is unrepresentable is recorded, not judged.",
+        technique="runtime monitoring: differential against an exact big-integer reference, per-call child processes with watchdog, two build lanes",
+    ),
 }
